@@ -12,7 +12,7 @@ ATTR = {
     "C10": {"mon": ("C10_", "C08_SocketClosedOnlyAfterHandlersReturned"), "inv": ("Extra_hstart", "Extra_hend", "Missing_hunbind", "Extra_hunbind", "Missing_eof")},
     "C11": {"mon": ("C11_",), "inv": ("Missing_stopret", "Missing_runret", "Extra_runret", "Late_stopret", "Late_runret")},
     "C12": {"mon": ("C12_",), "inv": ("Missing_stopret",)},
-    "C13": {"mon": ("C13_",), "inv": ("EveryWriteArrives", "Missing_hstart", "Missing_hend", "Late_hstart", "Late_hend", "Extra_hstart")},
+    "C13": {"mon": ("C13_", "C08_SocketClosedOnlyAfterHandlersReturned"), "inv": ("EveryWriteArrives", "Missing_hstart", "Missing_hend", "Late_hstart", "Late_hend", "Extra_hstart")},
     "C18": {"mon": ("C18_", "C07_"), "inv": ("Extra_hstart", "Extra_hend", "Extra_hunbind", "Missing_hstart", "Missing_hend", "Missing_eof", "Late_eof", "Late_hstart")},
     "C17": {"mon": ("C17_",), "inv": ("Missing_ready", "Extra_ready", "Extra_runret")},
 }
@@ -421,7 +421,7 @@ def check(run, pid, families, extra=None):
                         "trace": [[r["ev"], r["c"], r["i"], r["val"]] for r in rows if r.get("scen") == sample["id"]][:40]}],
            "evaluations": nenv, "distinct_nontrivial": len({json.dumps([e for e in s["behaviour"] if e["a"] in scen.ENV]) for s in scenarios if any(e["hold"] or e["a"] in ("stop", "close", "panic") for e in s["behaviour"])}),
            "families": stats, "trace_events": len(rows), "design_action_coverage": acov, "scenarios_out_of_step_not_judged": len(late),
-           "refinement": {"traces": rn, "accepted": len(racc), "rejected": len(rrej), "not_modelled": rskip, "corrupted_traces_rejected": ntamper,
+           "refinement": {"traces": rn, "accepted": len(racc), "rejected": len(rrej), "not_modelled": rskip, "search_unfinished_no_verdict": getattr(run, "refine_inconclusive", 0), "corrupted_traces_rejected": ntamper,
                           "rule": "GldapRefine.tla: per-goroutine event queues (gates of server.go/conn.go, handler entry/exit, OnClose, Stop/Run, client actions) "
                                   "interleaved by TLC under Gldap's actions; a trace is accepted when every event is consumed"},
            "rule": "TLC enumerates the behaviours of Scen.tla (Gldap.tla in quiescent normal form) up to the family's number of environment actions, "
